@@ -89,8 +89,17 @@ pub fn obs_brief(o: &Obs) -> String {
 /// Writes the file through a sink that accepts writes in short pieces and interrupts them (the
 /// alternating transfer policy). Returns the bytes the sink received.
 pub fn write_file_short(cfg: &FileCfg, entries: &[Entry]) -> Result<Vec<u8>, String> {
+    let a = write_file_policy(cfg, entries, vlib::sio::Policy::InterruptThenOne)?;
+    let b = write_file_policy(cfg, entries, vlib::sio::Policy::Alternate)?;
+    if a != b {
+        return Err("two short-writing sinks (one-byte accepts / cycling accepts) received different bytes".into());
+    }
+    Ok(a)
+}
+
+fn write_file_policy(cfg: &FileCfg, entries: &[Entry], policy: vlib::sio::Policy) -> Result<Vec<u8>, String> {
     let r = catch_unwind(AssertUnwindSafe(|| -> Result<Vec<u8>, String> {
-        let ctl = vlib::sio::Ctl::new(vlib::sio::Policy::Alternate);
+        let ctl = vlib::sio::Ctl::new(policy);
         let mut w = writer_builder(cfg).build(vlib::sio::SFile::new(&ctl));
         for (k, v) in entries {
             w.insert(k, v).map_err(|e| format!("insert error: {e}"))?;
